@@ -40,8 +40,8 @@ FUNCTIONS = [
     "unified_planning.model.types:is_compatible_type",
 ]
 BOUNDS = ("declared types: bool, int[lo,hi] and real[lo,hi] with symbolic lo <= hi in [-3,3], int[0,inf), int(-inf,5], unbounded int, user types T, S<T; "
-          "values: int v and rational v/2 with v symbolic in [-8,8], true/false, objects of T, S and an unrelated type U, fluent expressions (same type; Boolean; "
-          "int[a,b] with symbolic a <= b), parameter expressions, g + v; calls: set_initial_value (fresh and over an existing value), add_fluent with "
+          "values: int v symbolic in [-8,8] and rational (2k+1)/2 with k symbolic in [-4,3], true/false, objects of T, S and an unrelated type U, fluent expressions (same type; Boolean; "
+          "int[a,b] with symbolic a <= b), parameter expressions, g + c with concrete bounds and constant; calls: set_initial_value (fresh and over an existing value), add_fluent with "
           "default_initial_value (Fluent object or name+type), Problem(initial_defaults=...) followed by add_fluent, add_effect on InstantaneousAction / "
           "DurativeAction / Problem.add_timed_effect, add_increase_effect, ActionInstance")
 OUTSIDE = ("Effect.set_value and other setters that bypass add_effect; multi-agent / scheduling / contingent problem classes (same mixins); parameterised fluents with "
@@ -69,7 +69,8 @@ class TypeDesc:
     def __init__(self, sort, lo=None, hi=None, uname=None, up_type=None):
         self.sort, self.lo, self.hi, self.uname, self.up_type = sort, lo, hi, uname, up_type
 
-    def __repr__(self):
+    @property
+    def name(self):  # plain text only: formatting an object that holds symbolic bounds would realise them
         return f"{self.sort}:{self.uname}" if self.sort == "user" else self.sort
 
 
@@ -120,6 +121,12 @@ def _declared_type(ctx, w, ftype, tag="f"):
     raise ValueError(ftype)
 
 
+def _odd_half(n):
+    """Fraction(n, 2) for an odd n, without the gcd normalisation (nonlinear on a symbolic numerator)."""
+    mk = getattr(Fraction, "_from_coprime_ints", None)
+    return mk(n, 2) if mk is not None else Fraction(n, 2)
+
+
 class Val:
     """A value as handed to the API (`raw`), and what the harness knows about it: constant or not, sort, numeric interval [lo,hi]
     of its type (for a constant lo == hi == the value), user type name."""
@@ -137,10 +144,8 @@ def _value(ctx, w, vkind, decl, holder=None, allow_param=None):
         v = ctx.int("v", V_LO, V_HI)
         return Val(v, True, "int", v, v, label="int")
     if vkind == "half":
-        v = ctx.int("v", V_LO, V_HI)
-        fr = Fraction(v, 2)
-        if fr.denominator == 1:  # forks on the parity of v, as the library's uniform_numeric_constant will
-            return Val(fr, True, "int", fr.numerator, fr.numerator, label="half(int)")
+        k = ctx.int("v", V_LO // 2, V_HI // 2 - 1)
+        fr = _odd_half(2 * k + 1)  # a non-integer rational: (2k+1)/2
         return Val(fr, True, "real", fr, fr, label="half")
     if vkind in ("true", "false"):
         return Val(vkind == "true", True, "bool", label=vkind)
@@ -155,17 +160,23 @@ def _value(ctx, w, vkind, decl, holder=None, allow_param=None):
         if holder is not None:
             holder.add_fluent(w.bfl)
         return Val(em.FluentExp(w.bfl), False, "bool", label="fluent-bool")
-    if vkind in ("fluent-int", "plus"):
+    if vkind == "fluent-int":
         a = ctx.int("ga", B_LO, B_HI)
         b = ctx.int("gb", B_LO, B_HI)
         ctx.assume(a <= b)
         g = up.model.Fluent("g_int", tm.IntType(a, b), environment=env)
         if holder is not None:
             holder.add_fluent(g)
-        if vkind == "fluent-int":
-            return Val(g, False, "int", a, b, label="fluent-int")
-        v = ctx.int("v", V_LO, V_HI)
-        return Val(em.Plus(g, v), False, "int", a + v, b + v, label="plus")
+        return Val(g, False, "int", a, b, label="fluent-int")
+    if vkind == "plus":
+        # g + c with concrete bounds and constant (by choice): TypeChecker.walk_plus compares the inferred bounds with
+        # float("inf"), which the solver cannot decide for symbolic operands
+        a, b = ctx.pick("gab", [(0, 2), (-3, -1)])
+        c = ctx.pick("c", [-8, -3, 0, 4])
+        g = up.model.Fluent("g_int", tm.IntType(a, b), environment=env)
+        if holder is not None:
+            holder.add_fluent(g)
+        return Val(em.Plus(g, c), False, "int", a + c, b + c, label="plus")
     if vkind == "param":
         p = allow_param
         return Val(p, False, decl.sort, decl.lo, decl.hi, decl.uname, label="param")
@@ -228,7 +239,7 @@ def _check_stored_initial(ctx, decl, stored, tag, desc):
     else:
         ctx.fail(f"{tag}:stored-not-constant", f"the stored initial value {stored} is not a Boolean/numeric/object constant ({desc})")
     ctx.check(_sort_ok(decl, sort, uname), f"{tag}:stored-out-of-type",
-              f"the stored initial value is a {sort}{'/' + uname if uname else ''} constant, the declared type is {decl} ({desc})")
+              f"the stored initial value is a {sort}{'/' + uname if uname else ''} constant, the declared type is {decl.name} ({desc})")
     if num is not None:
         ctx.require(_inside(decl, num, num), f"{tag}:stored-out-of-type",
                     f"the stored numeric initial value lies outside the bounds of the declared type ({desc})")
@@ -236,7 +247,7 @@ def _check_stored_initial(ctx, decl, stored, tag, desc):
 
 def _check_compatible(ctx, decl, val, tag, desc):
     ctx.check(_sort_ok(decl, val.sort, val.uname), f"{tag}:accepted-incompatible-sort",
-              f"accepted a {val.sort}{'/' + val.uname if val.uname else ''} value for declared type {decl} ({desc})")
+              f"accepted a {val.sort}{'/' + val.uname if val.uname else ''} value for declared type {decl.name} ({desc})")
     if decl.sort in ("int", "real"):
         ctx.require(_overlap(decl, val.lo, val.hi), f"{tag}:accepted-incompatible-bounds",
                     f"accepted a numeric value whose type interval does not intersect the declared type ({desc})")
